@@ -257,6 +257,24 @@ def run_property(chk, pid):
             raw = realise(entries)
             recs.append(record(entries, observe(axml, raw, entries)))
             meta.append(("graph", entries))
+        # the same ids stored in two configurations, each with its own outgoing reference (cycles that fan out per configuration)
+        n2 = 3
+        opts2 = [("str", None)] + [(kk, j) for j in range(n2) for kk in ("ref", "bag")]
+        for _ in range(150 if quick else 3000):
+            entries = []
+            for i in range(n2):
+                for cfgname in ("|0", "de|0"):
+                    k, j = rnd.choice(opts2)
+                    if k == "str":
+                        kind, val = "str", codes("s%d%s" % (i, cfgname[:2].strip("|")))
+                    elif k == "ref":
+                        kind, val = "ref", base + j
+                    else:
+                        kind, val = "bag", [["str", codes("b%d%s" % (i, cfgname[:2].strip("|")))], ["ref", base + j]]
+                    entries.append(dict(pkg="com.a", pid=0x7F, type="array", tid=1, idx=i, cfg=cfgname, kind=kind, val=val, key="k%d" % i))
+            raw = realise(entries)
+            recs.append(record(entries, observe(axml, raw, entries)))
+            meta.append(("graph2cfg", entries))
         chk.bounds = dict(model="all reference tables on 3 ids (thorough: 4) with strings, references and bags", replay="reference graphs on %d ids (%d sampled), cycles of every length" % (n, len(combos)))
     else:
         r, states = tlc.dump_states("ArscMC", "ArscMC.cfg", stride=(40 if quick else 6, chk.seed), timeout=1200, heap="6g")
